@@ -14,6 +14,7 @@ mod parsedump;
 mod pipeline;
 mod pool;
 mod proc;
+mod readline;
 mod strlib;
 
 use std::env;
@@ -41,6 +42,7 @@ fn main() -> ExitCode {
         "pipeline" => pipeline::run(&args[2..]),
         "pool" => pool::run(&args[2], &args[3]),
         "proc" => proc::run(&args[2], &args[3]),
+        "readline" => readline::run(&args[2..]),
         "strlib" => strlib::run(&args[2], &args[3]),
         "frontend" => frontend::run(&args[2..]),
         other => {
